@@ -7,9 +7,9 @@ suppression on restore, and error discipline of the restore path (torn tail).
 import ast
 
 from ..cfg import CFG
-from ..model import walk_shallow, call_name, is_self_attr, dotted_name, norm_stmt
+from ..model import walk_shallow, call_name, is_self_attr, dotted_name, norm_stmt, parent
 from ..util import (has_call, find_calls, nodes_where, escape_path, node_ast_for_effects, guards_of,
-                    assigned_value, const_str, unparse, kw, arg_or_kw, enclosing_stmt, control_ancestors)
+                    assigned_value, const_str, unparse, kw, arg_or_kw, enclosing_stmt, control_ancestors, call_tail)
 from .. import mutate as M
 
 EXPLANATION = ("Static rules over the transaction-log writer (DiskSink), the task generator (MakeTasks), "
@@ -32,6 +32,7 @@ def run(ctx):
     r4_skip_guards(ctx)
     r5_preamble(ctx)
     r6_torn_tail(ctx)
+    r7_restore_reads_current_file(ctx)
 
 
 # ------------------------------------------------------------------------------------------ R1
@@ -318,11 +319,11 @@ def r5_preamble(ctx):
     pre = assigned_value(run, pre_name)
     ok = False
     for v in pre:
-        if isinstance(v, ast.IfExp) and unparse(v.test) == rest and has_call(v.body, "Identity") \
+        if isinstance(v, ast.IfExp) and unparse(v.test) in (f"{rest} and {rest}.experiment",) and has_call(v.body, "Identity") \
                 and has_call(v.orelse, "Insert") and '"T0"' in ast.unparse(v.orelse).replace("'", '"'):
             ok = True
     ctx.ob("C02.R5", EXP, "Experiment.run", enclosing_stmt(pre[0]) if pre else run,
-           "the T0 (experiment) record is inserted only when nothing was restored", ok, stmt="preamble choice")
+           "the T0 (experiment) record is inserted exactly when the file does not hold one yet (fresh file, or a log cut before its experiment row)", ok, stmt="preamble choice")
     enc = ctx.fn(RES, "TransactionEncode.filter")
     vys = [n for n in walk_shallow(enc) if isinstance(n, ast.Yield) and n.value is not None and "version" in unparse(n.value)]
     ctx.floor("C02.R5", "version yield in TransactionEncode.filter", len(vys), 1)
@@ -336,6 +337,51 @@ def r5_preamble(ctx):
     st = [n for n in walk_shallow(einit) if isinstance(n, ast.Assign) and any(is_self_attr(t, "_restored") for t in n.targets)]
     ctx.ob("C02.R5", RES, "TransactionEncode.__init__", st[0] if st else einit, "self._restored is the constructor argument",
            bool(st) and all(unparse(s.value) == "restored" for s in st), stmt="self._restored store")
+
+
+# ------------------------------------------------------------------------------------------ R7
+MEMO_DECORATORS = ("lru_cache", "cache", "cached_property", "memoize", "memoized")
+SOURCES = "coba/pipes/sources.py"
+
+
+def r7_restore_reads_current_file(ctx):
+    ctx.rule("C02.R7", "the restore path parses the file as it is now: no function on the chain Experiment.run -> Result.from_file -> from_save -> "
+                       "from_source -> DiskSource.read/TransactionDecode.filter/TransactionResult.filter is memoised (a cache keyed by file name "
+                       "would hand a second resume the state of the first); a log without an experiment row is never a mismatch")
+    res_cls = ctx.model.cls(RES, "Result")
+    chain, todo = [], ["from_file"]
+    while todo:
+        nm = todo.pop()
+        fn = res_cls.methods.get(nm)
+        if fn is None or (RES, f"Result.{nm}", fn) in chain:
+            continue
+        chain.append((RES, f"Result.{nm}", fn))
+        for c in walk_shallow(fn):
+            if isinstance(c, ast.Call) and isinstance(c.func, ast.Attribute) and isinstance(c.func.value, ast.Name) and c.func.value.id in ("Result", "cls") \
+                    and c.func.attr in res_cls.methods:
+                todo.append(c.func.attr)
+    for rel, qual in ((SOURCES, "DiskSource.read"), (SOURCES, "DiskSource.__init__"), (RES, "TransactionDecode.filter"), (RES, "TransactionResult.filter")):
+        chain.append((rel, qual, ctx.fn(rel, qual)))
+    ctx.floor("C02.R7", "functions on the restore chain", len(chain), 6)
+    for rel, qual, fn in chain:
+        ctx.touch(rel, qual)
+        decs = [(dotted_name(d.func) if isinstance(d, ast.Call) else dotted_name(d)) or unparse(d) for d in fn.decorator_list]
+        bad = [d for d in decs if d.split(".")[-1] in MEMO_DECORATORS]
+        ctx.ob("C02.R7", rel, qual, fn, "the function is not memoised (decorators: only staticmethod/classmethod/property)", not bad and all(d.split(".")[-1] in ("staticmethod", "classmethod", "property", "overload") for d in decs),
+               detail={"decorators": decs}, stmt=f"decorators of {qual}")
+    # a missing experiment row (crash between the version row and the experiment row) must not count as a mismatch
+    run = ctx.fn(EXP, "Experiment.run")
+    gets = [c for c in walk_shallow(run) if isinstance(c, ast.Call) and call_tail(c) == "get" and isinstance(c.func, ast.Attribute) and unparse(c.func.value).endswith(".experiment")
+            and c.args and const_str(c.args[0]) in ("n_learners", "n_environments")]
+    ctx.floor("C02.R7", "experiment-row look-ups in the mismatch test", len(gets), 2)
+    for c in gets:
+        cmp_ = parent(c)
+        other = None
+        if isinstance(cmp_, ast.Compare) and len(cmp_.ops) == 1 and isinstance(cmp_.ops[0], (ast.NotEq, ast.Eq)):
+            other = cmp_.left if cmp_.comparators[0] is c else cmp_.comparators[0]
+        ok = other is not None and len(c.args) == 2 and unparse(c.args[1]) == unparse(other)
+        ctx.ob("C02.R7", EXP, "Experiment.run", c, "when the log has no experiment row the count defaults to the given one (no mismatch, the run resumes)", ok,
+               detail={"compared_with": unparse(other) if other is not None else None, "default": unparse(c.args[1]) if len(c.args) == 2 else None})
 
 
 # ------------------------------------------------------------------------------------------ R6
@@ -409,7 +455,16 @@ def r6_torn_tail(ctx):
 
 
 # ------------------------------------------------------------------------------------------ controls
+def _memoise_from_save(tree):
+    from ..mutate import find_def
+    fn = find_def(tree, "Result.from_save")
+    fn.decorator_list.append(ast.parse("lru_cache(maxsize=4)", mode="eval").body)
+
+
 CONTROLS = [
+    ("experiment row only for fresh files", EXP, M.replace_expr("Experiment.run", "restored and restored.experiment", "restored", nth=0), "C02.R5"),
+    ("from_save memoised by file name", RES, _memoise_from_save, "C02.R7"),
+    ("missing experiment row counts as mismatch", EXP, M.replace_expr("Experiment.run", "restored.experiment.get('n_learners', n_given_lrns)", "restored.experiment.get('n_learners', len(restored.learners))"), "C02.R7"),
     ("drop flush", SINKS, M.delete_stmt("DiskSink.write", M.text_has("self._file.flush()")), "C02.R1"),
     ("batch=None", EXP, M.replace_expr("Experiment.run", "DiskSink(result_file, batch=1)", "DiskSink(result_file)"), "C02.R2"),
     ("yield generator", PROC, M.replace_expr("ProcessTasks.filter", "list(SafeEvaluator(val).evaluate(env, lrn))",
